@@ -175,6 +175,8 @@ def menu(M, seen):
             add({"op": "ctor_bcast", "name": mname, "form": "scalar"})
             add({"op": "ctor_bcast", "name": mname, "form": "len1"})
             add({"op": "ctor_bcast", "name": mname, "form": "len1col"})
+            add({"op": "ctor_bcast", "name": mname, "form": "scalar_strsub"})
+            add({"op": "modify", "name": mname, "form": "scalar_strsub"})
         add({"op": "select", "cols": list(reversed(names))})
         add({"op": "select", "cols": [names[0]]})
         # calls with nothing to do: no names, no pairs, no other frames
@@ -305,11 +307,17 @@ def side_frame(M, rows, with_existing):
     return d, P
 
 
+class StrSub(str):
+    pass
+
+
 def value_of(form, n, M):
     if form == "scalar":
         return 5, [5]
     if form == "scalar0":
         return 0, [0]   # a falsy scalar is a value like any other
+    if form == "scalar_strsub":
+        return StrSub("red"), ["red"]   # an instance of a str subclass (what enum.StrEnum members are) is a scalar
     if form == "len1col":
         return di.DataFrameColumn([5]), [5]
     if form == "len1":
